@@ -244,3 +244,41 @@ func init() {
 		}
 	}
 }
+
+func init() {
+	dumpers["lenstores"] = func(c *Ctx) {
+		type fk struct{ t, f string }
+		want := map[fk]bool{{"SmallArray", "len"}: true, {"SmallMap", "len"}: true, {"Environment", "numReg"}: true, {"Register", "Idx"}: true}
+		for _, fn := range c.ModuleSSAFuncs() {
+			eachInstr(fn, func(in ssa.Instruction) {
+				st, ok := in.(*ssa.Store)
+				if !ok {
+					return
+				}
+				fa, ok := st.Addr.(*ssa.FieldAddr)
+				if !ok {
+					return
+				}
+				n := namedStruct(fa.X.Type())
+				if n == nil {
+					return
+				}
+				fname := n.Underlying().(*types.Struct).Field(fa.Field).Name()
+				if !want[fk{n.Obj().Name(), fname}] {
+					return
+				}
+				fmt.Printf("%s %s.%s = %s   [%s] in %s\n", c.Pos(st.Pos()), n.Obj().Name(), fname, st.Val.String(), st.Val.Name(), ssaFuncName(fn))
+			})
+		}
+	}
+}
+
+func init() {
+	dumpers["bounded"] = func(c *Ctx) {
+		r := NewReport("C07", "quick", c)
+		c.checkBoundedContainers(r, "X", map[string]bool{"eval": true, "object": true})
+		for _, o := range r.Obls {
+			fmt.Printf("%v %s | %s | %s | %s\n", o.status, o.Func, o.Desc, o.Pos, o.Reason)
+		}
+	}
+}
